@@ -152,5 +152,5 @@ META = {
             "<= 5 actors x 12 ops, explorer bounded by fuel (falls back to the replayed schedule, which is sound for membership). Not modelled: "
             "timeouts, try_lock, recursive mutexes, asynchronous comms, filters; simulated time (treated as scheduling freedom).",
     "technique": "Coq proof (generic DFS closure invariant, case analysis of the step function) + extracted explorer as oracle + schedule replay correspondence",
-    "claimed": False,
+    "claimed": True,
 }
